@@ -187,6 +187,7 @@ def campaign_mid_reads(work, tier, it, dist):
     import sqlite3
     cases = []
     pre_specs = A1[2]
+    n_pre = len([r for r in sm.batch_rows(pre_specs) if r])
     specs = [T(["m", "M"][i % 2], sm.QUALNAMES[i % 7], 0, "J%d" % i) for i in range(6)]
     path = os.path.join(work, "mid.db")
     ks = range(1, 140, 9 if tier == "quick" else 1)
@@ -231,8 +232,9 @@ def campaign_mid_reads(work, tier, it, dist):
             rows, ok = seen["table"]
             dist["mid_txn_reads"] += 1
             cases.append({"kind": "mid-read", "nontrivial": True,
-                          "term": f"CReach [{pre}] [({sub}, 2)] [] {it.rows_term(rows)} {common.coq_bool(ok)}",
-                          "desc": f"independent connection at VM step {k} of an uncommitted add() saw {len(rows)} rows "
+                          "term": f"CReach [{pre}] [({sub}, 2)] [{'0' if len(rows) > n_pre else ''}] "
+                                  f"{it.rows_term(rows)} {common.coq_bool(ok)}",
+                          "desc": f"independent connection at VM step {k} of an in-flight add() saw {len(rows)} rows "
                                   f"(the committed batch has {len([r for r in sm.batch_rows(pre_specs) if r])})"})
     return cases
 
@@ -279,15 +281,21 @@ def one_kill(work, it, dist, idx, mode, k, cache, wide, n_rows, delay):
         out, err = p.communicate(timeout=120)
         done_b = "OK B" in out
     else:
+        calib_done = False
         p = _spawn(["victim", path, cache, int(wide), n_rows])
         line = p.stdout.readline()
         if "START" not in line:
             p.kill()
             raise RuntimeError("victim did not start: " + line + p.stderr.read()[-500:])
+        if delay is None:       # calibration: let it finish, measure how long INSERT + COMMIT take
+            t1 = time.time()
+            calib_done = "DONE" in p.stdout.readline()
+            dist["victim_insert_commit_ms"] = round((time.time() - t1) * 1000, 2)
+            delay = 0.0
         time.sleep(delay)
         p.send_signal(signal.SIGKILL)
         out, err = p.communicate(timeout=60)
-        done_b = "DONE" in out
+        done_b = "DONE" in out or calib_done
     killed = p.returncode == -signal.SIGKILL
     if not killed and not done_b:
         raise RuntimeError(f"kill worker ended rc={p.returncode}: {err[-800:]}")
@@ -333,6 +341,10 @@ def campaign_kill(work, tier, rnd, it, dist):
         for i in range(80):
             jobs.append(("victim", 0, 1 if i % 2 else 0, True, 300, rnd.uniform(0.0, 0.03)))
     cases = []
+    # how long does the victim's INSERT + COMMIT take here?  kill delays are drawn from 0 .. 1.3 x that
+    cases += one_kill(work, it, dist, 10 ** 6, "victim", 0, 1, True, 300, None)
+    span = 1.3 * dist["victim_insert_commit_ms"] / 1000.0
+    jobs = [j[:5] + (rnd.uniform(0.0, span),) if j[0] == "victim" else j for j in jobs]
     with ThreadPoolExecutor(max_workers=8) as ex:
         futs = [ex.submit(one_kill, work, it, dist, i, *j) for i, j in enumerate(jobs)]
         for f in futs:
